@@ -561,6 +561,49 @@ def t3_refinement_skeleton(ctx: Ctx):
     ctx.check(ok, ANA, mc, '_magnitude_constraint', 'a comparison tightens only the bound it speaks about, only toward zero, only for a dyadic literal', 'changed')
 
 
+def t4_exact_shortcuts(ctx: Ctx):
+    """`exact_binop` and `exact_unop` answer through an algebraic identity when an operand is the singleton {0}.  The
+    identities that hold are `0 + x = x`, `x + 0 = x` and `x - 0 = x`; `0 - x` is `-x` and `0 * x` is not 0 for an
+    infinite x.  The function is evaluated, from its source, on every (operation, zero / set / format, zero / set /
+    format) triple with tagged stand-ins, and each answer must be one the cell allows: the general path `op(abstract(lhs),
+    abstract(rhs))` or the pointwise set result (sound by T1), giving up (None), or the operand the identity names."""
+    from ..minipy import Interp, Obj
+    fn = ctx.fn(ANA, 'exact_binop')
+    ops = {k: (lambda a, b, k=k: ('op', k, a, b)) for k in ('add', 'sub', 'mul')}
+    operator = Obj('module', **ops)
+    n = 0
+    for opname, opf in ops.items():
+        for lk in ('zero', 'set', 'fmt'):
+            for rk in ('zero', 'set', 'fmt'):
+                if lk != 'fmt' and rk != 'fmt':
+                    continue        # set / set: pointwise arithmetic over the members, not a shortcut
+                mk = lambda side, k: Obj('SetFormat' if k != 'fmt' else 'Format', side=side, zero=(k == 'zero'), values=())  # noqa: E731
+                lhs, rhs = mk('lhs', lk), mk('rhs', rk)
+                ov = {
+                    '_is_zero_set': lambda f: isinstance(f, Obj) and f.fields.get('zero', False),
+                    '_to_abstract': lambda f: ('abs', f),
+                    '_setformat_to_abstract': lambda f: ('abs', f),
+                }
+                interp = Interp({}, globals_={'operator': operator, '_SET_BINOPS': {}}, overrides=ov,
+                                is_a=lambda k, c: c in ('AbstractableFormatBound',) or k == c)
+                got = interp.call_function(fn, [lhs, rhs, opf], {'cap': None})
+                general = ('op', opname, ('abs', lhs), ('abs', rhs))
+                allowed = [None, general]
+                if opname == 'add' and lk == 'zero':
+                    allowed += [rhs, ('abs', rhs)]
+                if opname in ('add', 'sub') and rk == 'zero':
+                    allowed += [lhs, ('abs', lhs)]
+                if opname == 'mul' and 'zero' in (lk, rk):
+                    allowed = [None]        # 0 * inf is NaN, 0 * negative is -0: neither is in {0} nor in the zero-bounded product
+                n += 1
+                shown = 'None' if got is None else 'the general path' if got == general else f'the {got[1].fields["side"] if isinstance(got, tuple) and got[0] == "abs" else got.fields["side"]} operand\'s own format' \
+                    if (isinstance(got, Obj) or (isinstance(got, tuple) and got[0] == 'abs')) else repr(got)
+                ctx.check(any(got is a or got == a for a in allowed), ANA, fn, 'exact_binop', f'{opname}({lk}, {rk}) answers by an identity that holds',
+                          f'{opname}({{0}} as {"lhs" if lk == "zero" else "rhs"}, format) gives {shown}: 0 - x is -x (and 0 * x is not 0 for every x)')
+    if n < 15:
+        raise ShapeError(f'exact_binop: only {n} cells evaluated')
+
+
 EXPLANATION = (
     'Structural decision over fpy2/analysis/format_infer (ast; the AbstractFormat operators are read by sa/minipy.py: the slice of each '
     'operator that computes its exponent, bounds and special-value flags is evaluated over an exhaustive family of stand-in formats - all 16 flag '
@@ -585,12 +628,20 @@ RULES = [
     Rule('C14.T2', 'containment agrees with membership; round_is_identity is containment in the target format', t2_containment, 10, 'T'),
     Rule('C14.D1', 'inference phis join both operands; loops iterate until stable with widening only past the limit; exact walk for known trip counts', d1_phi_updates, 21, 'D'),
     Rule('C14.X1', '_join_bounds returns an operand only under equality or proven containment', x1_join_table, 8, 'X'),
+    Rule('C14.T4', 'exact_binop shortcuts for a {0} operand use only identities that hold (0 + x, x + 0, x - 0; never 0 - x = x or 0 * x = 0)', t4_exact_shortcuts, 15, 'T'),
     Rule('C14.T3', 'branch refinement follows from the condition (boolean skeleton of _implied; negation table; direction of the constraint)', t3_refinement_skeleton, 3, 'T'),
 ]
 
 from ..selftest import Mutant  # noqa: E402
 
 MUTANTS = [
+    # T4
+    Mutant('zero-minus-x-is-x', ANA, "    if op is operator.add:\n        if lhs_zero:\n            return rhs if isinstance(rhs, SetFormat) else _to_abstract(rhs)\n        if rhs_zero:\n            return lhs if isinstance(lhs, SetFormat) else _to_abstract(lhs)\n    if op is operator.sub and rhs_zero:\n        return lhs if isinstance(lhs, SetFormat) else _to_abstract(lhs)",
+           "    if op is operator.add or op is operator.sub:\n        if lhs_zero:\n            return _to_abstract(rhs)\n        if rhs_zero:\n            return _to_abstract(lhs)", 'C14.T4',
+           'seeded change C14c: 0 - x for an unsigned 8-bit x is reported as [0, 255]'),
+    Mutant('zero-times-x-is-zero', ANA, "        # a later add/sub's `prec` to 0.\n        return None", "        # a later add/sub's `prec` to 0.\n        return lhs if lhs_zero else rhs", 'C14.T4'),
+    Mutant('x-minus-zero-shortcut-dropped', ANA, "    if op is operator.sub and rhs_zero:\n        return lhs if isinstance(lhs, SetFormat) else _to_abstract(lhs)\n", "", 'C14.T4',
+           'the general path is sound', expect='silent'),
     # T3
     Mutant('failed-conjunction-split', ANA, "            case And() if truth:\n                return [i for a in cond.args for i in self._implied(a, True)]", "            case And():\n                return [i for a in cond.args for i in self._implied(a, truth)]", 'C14.T3',
            'seeded change C14a: the else arm of `x >= 4 and k >= 4` is refined to x < 4'),
